@@ -1019,6 +1019,16 @@ func (dsc *dataStoreCommand) randomKey() (output respValue) {
 	return
 }
 
+// empties the database in place, so that every connection that selected it sees the flush,
+// watched keys count as modified, and the next save writes the empty database
+func (dsc *dataStoreCommand) flush() {
+	dsc.lock()
+	defer dsc.unlock()
+
+	dsc.ds.data = newRedisDict()
+	dsc.ds.data.dirty = true
+}
+
 // number of keys that have not expired
 func (dsc *dataStoreCommand) dbSize() (count int) {
 	dsc.lock()
